@@ -99,6 +99,10 @@ func (rp *RuleParser) ParseVariables(vars string) error {
 				i += 2
 				isquoted = false
 			} else if curr == 2 {
+				// the closing slash of a regex key ends the target: only '|' (or the end of the list) may follow
+				if i+1 < len(vars) && vars[i+1] != '|' {
+					return fmt.Errorf("unexpected %q after the regex key /%s/", vars[i+1], string(curKey))
+				}
 				i++
 			}
 
